@@ -15,6 +15,8 @@ fn alphabet() -> Vec<Action> {
         a.push(Action::Exec { id, bind: Bind::B, null_first: false, shim_ignores: true });
         a.push(Action::Exec { id, bind: Bind::C, null_first: false, shim_ignores: true });
         a.push(Action::Prepare { id, n: 2, ok: true });
+        // pending long data must not disturb what an execution binds or what later ones reuse
+        a.push(Action::Long { id, param: 1, chunk: 1 });
     }
     a
 }
@@ -38,7 +40,7 @@ pub fn build(quick: bool) -> Check {
     Check {
         id: "C16",
         level: "model_checking",
-        rule: format!("two prepared statements of 2 parameters; histories over {} actions: EXECUTE(id 1|2, reuse | bind LONG | TINY UNSIGNED | VAR_STRING | BIGINT UNSIGNED | LONG UNSIGNED (same type code, other signedness; values have the top bit set), first parameter NULL or not), executions whose parameters the shim does not look at, re-PREPARE. Values are position- and step-dependent so that decoding with another statement's or an older type table, or from a shifted offset, gives a different value. Full tree to depth {} plus BFS over model states with two witnesses. Plus 4..300 statements each with its own table, all reused afterwards, and 4 statements under 160..3000 mixed executions. Oracle: types and values seen by the shim equal the model's (last table bound for that statement).", alpha.len(), if quick {4} else {6}),
+        rule: format!("two prepared statements of 2 parameters; histories over {} actions: EXECUTE(id 1|2, reuse | bind LONG | TINY UNSIGNED | VAR_STRING | BIGINT UNSIGNED | LONG UNSIGNED (same type code, other signedness; values have the top bit set), first parameter NULL or not), executions whose parameters the shim does not look at, long data pending for the second parameter, re-PREPARE. Values are position- and step-dependent so that decoding with another statement's or an older type table, or from a shifted offset, gives a different value. Full tree to depth {} plus BFS over model states with two witnesses. Plus 4..300 statements each with its own table, all reused afterwards, and 4 statements under 160..3000 mixed executions. Oracle: types and values seen by the shim equal the model's (last table bound for that statement).", alpha.len(), if quick {4} else {6}),
         assumptions: vec!["reusing types when none were ever bound ends the history (protocol violation by the client)".into()],
         bounds: json!({"tree_depth": if quick {4} else {6}, "alphabet": alpha.len()}),
         exhaustive: true,
